@@ -86,6 +86,8 @@ Witness(v, ty, exh) ==
   ELSE IF v.k = "array" /\ ty.k = "array" /\ Matches(Arr(Unwire(v.tag)), t)
           /\ \E i \in 1..Len(v.es) : ~InType(v.es[i], ty.e)
   THEN Witness(v.es[CHOOSE i \in 1..Len(v.es) : ~InType(v.es[i], ty.e)], ty.e, FALSE)
+  ELSE IF v.k = "cell" /\ ty.k = "mut" /\ Unwire(v.ty) = t.e /\ ~InType(v.c, v.ty)
+  THEN Witness(v.c, v.ty, FALSE)            \* the cell is of the right type but its content is not
   ELSE IF ~HasDeep(v) /\ Member(VW(v), t) /\ ~WellFormed(VW(v))
   THEN [wv |-> [k |-> "dishonest-tag", of |-> Summary(v)], wt |-> ty, exh |-> exh]
   ELSE [wv |-> Summary(v), wt |-> ty, exh |-> exh]
